@@ -317,6 +317,20 @@ func init() {
 			}
 			fmt.Fprintf(out, "%d\t%d\t%d\t%s\t%s\n", countMen(fen), nl, chk, src, fen)
 		}
+		emitList := func(moves []string, src string) {
+			gen := engine.NewGenerator()
+			for _, m := range moves {
+				if err := engine.VerifApplyUci(gen, m); err != nil {
+					return
+				}
+			}
+			nl := len(strings.Fields(engine.VerifLegal(gen)))
+			chk := 0
+			if engine.VerifInCheck(gen.VerifTop()) {
+				chk = 1
+			}
+			fmt.Fprintf(out, "%d\t%d\t%d\t%s\tstartpos moves %s\n", countMen(fenOfPos(gen.VerifTop())), nl, chk, src, strings.Join(moves, " "))
+		}
 		for _, f := range corpusFens {
 			emit(f, "corpus")
 		}
@@ -327,6 +341,10 @@ func init() {
 			if i%3 == 0 {
 				emit(mateyPlacement(r), "matey")
 			}
+			if i%2 == 0 {
+				emit(promoPlacement(r), "promo")
+			}
+			emit(promoPlacement2(r), "promo2")
 			switch i % 4 {
 			case 0, 1:
 				emit(sparsePlacement(r), "sparse")
@@ -334,6 +352,25 @@ func init() {
 				gm := playout(r, "startpos", 20+r.intn(220))
 				emit(gm.fens[len(gm.fens)-1], "playout-end")
 				emit(gm.fens[r.intn(len(gm.fens))], "playout")
+				// the same game as a move list: prefixes ending with a two-rank move of a piece that is not a pawn (the
+				// `position ... moves` path must not mistake it for a double pawn push), and a random prefix
+				emitted := 0
+				for i, m := range gm.moves {
+					dr := int(m[3]) - int(m[1])
+					if dr != 2 && dr != -2 {
+						continue
+					}
+					before := parseSnap(engineSnapOfFen(gm.fens[i]))
+					from := (m[1]-'1')<<4 | (m[0] - 'a')
+					if before.board[from]&0x3f == 1 || emitted >= 2 {
+						continue
+					}
+					emitList(gm.moves[:i+1], "movelist-2rank")
+					emitted++
+				}
+				if len(gm.moves) > 0 {
+					emitList(gm.moves[:1+r.intn(len(gm.moves))], "movelist")
+				}
 			default:
 				emit(randomPlacement(r), "synthetic")
 			}
@@ -373,7 +410,7 @@ func init() {
 					status = "no bestmove"
 				}
 			}()
-			time.Sleep(3 * time.Millisecond)
+			waitFor(oc, "bestmove", 1, 10*time.Second)
 			engine.VerifSyncHook = nil
 			lines := oc.stop()
 			nb := 0
@@ -465,4 +502,199 @@ func mateyPlacement(r *rng) string {
 		side = "b"
 	}
 	return fenFromMap(cells, side, "-", "-", 1+r.intn(60))
+}
+
+// pawns about to promote on both sides with unbalanced material: quiescence nodes where the side far behind still has a
+// promotion or a capture-promotion
+func promoPlacement(r *rng) string {
+	cells := map[int]byte{}
+	free := func() int {
+		for {
+			s := sq(r.intn(8), r.intn(8))
+			if _, used := cells[s]; !used {
+				return s
+			}
+		}
+	}
+	cells[free()] = 'K'
+	cells[free()] = 'k'
+	for i := 0; i < 1+r.intn(2); i++ {
+		s := sq(r.intn(8), 6)
+		if _, used := cells[s]; !used {
+			cells[s] = 'P'
+		}
+		s = sq(r.intn(8), 1)
+		if _, used := cells[s]; !used {
+			cells[s] = 'p'
+		}
+	}
+	strong := "QRRBN"
+	n := 1 + r.intn(3)
+	upper := r.chance(1, 2)
+	for i := 0; i < n; i++ {
+		c := strong[r.intn(len(strong))]
+		if !upper {
+			c += 32
+		}
+		cells[free()] = c
+	}
+	if r.chance(1, 2) {
+		c := "nbr"[r.intn(3)]
+		if !upper {
+			c -= 32
+		}
+		cells[free()] = byte(c)
+	}
+	side := "w"
+	if r.chance(1, 2) {
+		side = "b"
+	}
+	return fenFromMap(cells, side, "-", "-", 1+r.intn(40))
+}
+
+// refmm: plain unpruned minimax of the depth-d tree of property C04 with the engine's own generator and evaluation
+// (full width for d plies, then captures/promotions with stand-pat on the FULL evaluation, mate/stalemate where they occur),
+// plus "some quiescence node is lazy-sensitive" (|full - material part| > margin).  Used only to judge disagreements.
+type refmm struct {
+	nodes int
+	sens  bool
+	limit int
+}
+
+func (r *refmm) quiesce(gen *engine.Generator, depth int) int {
+	r.nodes++
+	if r.nodes > r.limit {
+		panic("refmm node limit")
+	}
+	p := gen.VerifTop()
+	var sp int
+	if engine.VerifIsCheckMate(p) {
+		sp = -100000 + depth
+	} else {
+		full, mat := engine.VerifEval(p)
+		sp = full
+		d := full - mat
+		if d < 0 {
+			d = -d
+		}
+		if d > 320 {
+			r.sens = true
+		}
+	}
+	best := sp
+	for _, t := range strings.Fields(engine.VerifTactical(gen)) {
+		m := t
+		if i := strings.IndexAny(m, "*@"); i >= 0 {
+			m = m[:i]
+		}
+		if err := engine.VerifPush(gen, m); err != nil {
+			continue
+		}
+		v := -r.quiesce(gen, depth+1)
+		engine.VerifPop(gen)
+		if v > best {
+			best = v
+		}
+	}
+	return best
+}
+
+func (r *refmm) full(gen *engine.Generator, d, depth int) int {
+	if d == 0 {
+		return r.quiesce(gen, depth)
+	}
+	moves := engine.VerifLegalOrdered(gen)
+	if len(moves) == 0 {
+		r.nodes++
+		if engine.VerifInCheck(gen.VerifTop()) {
+			return -100000 + depth
+		}
+		return 0
+	}
+	best := -1 << 60
+	for _, m := range moves {
+		if err := engine.VerifPush(gen, m); err != nil {
+			continue
+		}
+		v := -r.full(gen, d-1, depth+1)
+		engine.VerifPop(gen)
+		if v > best {
+			best = v
+		}
+	}
+	return best
+}
+
+func init() {
+	// verifh refmm <file: lines "fen<TAB>depth">  ->  "OK|value|sens|nodes" per line
+	commands["refmm"] = func(args []string) {
+		data, _ := os.ReadFile(args[0])
+		for _, l := range strings.Split(strings.TrimSpace(string(data)), "\n") {
+			parts := strings.Split(l, "\t")
+			res := guarded(func() string {
+				gen, err := engine.NewGeneratorFromFen(parts[0])
+				if err != nil {
+					return "REJ"
+				}
+				d := 1
+				fmt.Sscanf(parts[1], "%d", &d)
+				r := &refmm{limit: 30000000}
+				v := r.full(gen, d, 0)
+				s := 0
+				if r.sens {
+					s = 1
+				}
+				return fmt.Sprintf("OK|%d|%d|%d", v, s, r.nodes)
+			})
+			out.WriteString(res)
+			out.WriteByte('\n')
+		}
+	}
+}
+
+// like promoPlacement but with minor/rook material only and roughly balanced mobility, so that the depth-d tree rarely
+// contains a lazy-sensitive node (those trees are the deviation C04 admits and cannot be used to judge the score)
+func promoPlacement2(r *rng) string {
+	cells := map[int]byte{}
+	free := func() int {
+		for {
+			s := sq(r.intn(8), r.intn(8))
+			if _, used := cells[s]; !used {
+				return s
+			}
+		}
+	}
+	cells[free()] = 'K'
+	cells[free()] = 'k'
+	for i := 0; i < 1+r.intn(2); i++ {
+		s := sq(r.intn(8), 5+r.intn(2))
+		if _, used := cells[s]; !used {
+			cells[s] = 'P'
+		}
+		s = sq(r.intn(8), 1+r.intn(2))
+		if _, used := cells[s]; !used {
+			cells[s] = 'p'
+		}
+	}
+	for _, set := range []string{"RBNrbn", "RBNrbn"} {
+		if r.chance(3, 4) {
+			cells[free()] = set[r.intn(len(set))]
+		}
+	}
+	if r.chance(1, 2) {
+		cells[free()] = "RBNrbn"[r.intn(6)]
+	}
+	side := "w"
+	if r.chance(1, 2) {
+		side = "b"
+	}
+	return fenFromMap(cells, side, "-", "-", 1+r.intn(40))
+}
+
+func engineSnapOfFen(fen string) string {
+	g, err := engine.NewGeneratorFromFen(fen)
+	if err != nil {
+		return ""
+	}
+	return engine.VerifSnapshot(g.VerifTop())
 }
